@@ -143,6 +143,22 @@ def install(E, W, keep):
     def field_get_receiver(self, receiver, method='cubic'):
         return get_receiver(self, receiver, method)
     setg(E.fields.Field, 'get_receiver', field_get_receiver)
+
+    # every TensorMesh (also those created by copy / from_dict)
+    TM = E.meshes.TensorMesh
+    real_deriv = TM.get_edge_inner_product_deriv
+    rng = np.random.default_rng(0)
+
+    def sym_deriv(self, m, *a, **k):
+        f = real_deriv(self, m, *a, **k)
+        A = f(np.ones(self.n_edges))
+        u = rng.normal(size=self.n_edges)
+        import scipy.sparse as sps
+        if abs(f(u) - sps.diags(u) @ A).max() > 1e-12:
+            raise RuntimeError("edge inner product derivative is not "
+                               "diag(u) @ A on this mesh")
+        return lambda fld: _Deriv(A, np.asarray(fld, dtype=object))
+    setg(TM, 'get_edge_inner_product_deriv', sym_deriv)
     return saved
 
 
@@ -220,6 +236,7 @@ class _Deriv:
 
 
 def patch_grid_deriv(grid):
+    return        # done at class level in install()
     real = grid.get_edge_inner_product_deriv
     rng = np.random.default_rng(0)
 
